@@ -15,6 +15,7 @@ type Profile struct {
 	Lambdas        bool
 	StrMatch       bool
 	Interp         bool
+	RecursiveTypes bool // a union that refers to itself (directly, through a pair, through a slice)
 	GoKeywordNames bool // some parameters / locals are named like Go keywords (range, map, default, ...)
 	RawStr         bool
 	Tuple3         bool
@@ -54,7 +55,7 @@ type Profile struct {
 	MaxDepth       int
 }
 
-var ProfileC01 = Profile{Name: "c01", GoKeywordNames: true, MulDiv: true, Lambdas: true, StrMatch: true, Interp: true, RawStr: true, Tuple3: true, InnerFun: true, IfOnly: true,
+var ProfileC01 = Profile{Name: "c01", RecursiveTypes: true, GoKeywordNames: true, MulDiv: true, Lambdas: true, StrMatch: true, Interp: true, RawStr: true, Tuple3: true, InnerFun: true, IfOnly: true,
 	UnionNoDef: true, FieldPerm: true, Partial: true, Pipes: true, HigherOrder: true, CompositeEq: true, UsField: true, SliceLib: true, StringsLib: true,
 	TopVars: true, Shadow: true, LowerFields: true, Recursion: true, StrCompare: true, GenericFns: true, RecGroups: true, Stateful: true, UnitIfElse: true, PipeStmt: true, MoreSlice: true, BareLambda: true, GenericTypes: true, MinFuncs: 3, MaxFuncs: 7, MaxDepth: 4}
 
@@ -278,6 +279,21 @@ func (g *Gen) genTypes() {
 		g.unions = append(g.unions, ud)
 		g.add(ud)
 	}
+	if g.P.RecursiveTypes && g.R.Chance(0.5) {
+		// a union that refers to itself: directly, through a pair, through a slice
+		ud := &UnionDef{Name: "Tr", Cases: []UCase{{Name: "TrLeaf", Payload: TInt}}}
+		shapes := []UCase{{Name: "TrNode", Payload: TTuple(TUnion("Tr"), TUnion("Tr"))}, {Name: "TrMany", Payload: TSlice(TUnion("Tr"))},
+			{Name: "TrTag", Payload: TTuple(TString, TUnion("Tr"))}, {Name: "TrWrap", Payload: TUnion("Tr")}}
+		core.Shuffle(g.R, shapes)
+		ud.Cases = append(ud.Cases, shapes[:1+g.R.Intn(3)]...)
+		if g.R.Bool() {
+			ud.Cases = append(ud.Cases, UCase{Name: "TrNil"})
+		}
+		core.Shuffle(g.R, ud.Cases)
+		g.unions = append(g.unions, ud)
+		g.add(ud)
+		g.feat("recursive-union")
+	}
 	if g.P.GenericTypes && g.R.Chance(0.5) {
 		// a generic union and a generic record, each used at two instantiations
 		g.add(&RawDecl{Names: []string{"GOpt", "GSome", "GNone"}, Text: "type GOpt<T> =\n| GSome of T\n| GNone"})
@@ -350,6 +366,22 @@ func (g *Gen) union(name string) *UnionDef {
 }
 
 func v(name string) *Var { return &Var{Name: name} }
+
+// mentionsUnion: does type t contain the union called name?
+func mentionsUnion(t *Type, name string) bool {
+	if t == nil {
+		return false
+	}
+	if t.K == KUnion && t.Name == name {
+		return true
+	}
+	for _, a := range t.Args {
+		if mentionsUnion(a, name) {
+			return true
+		}
+	}
+	return false
+}
 
 func call(fn string, args ...Expr) *Call { return &Call{Fn: v(fn), Args: args} }
 
@@ -433,7 +465,29 @@ func (g *Gen) genObservers() {
 			ud := g.union(t.Name)
 			m := &MatchU{Target: v("v"), Union: ud}
 			for i, c := range ud.Cases {
-				if c.Payload != nil {
+				if c.Payload != nil && mentionsUnion(c.Payload, ud.Name) {
+					// the observer of a self-referential union calls itself (no other definition may
+					// refer to it before it is complete)
+					var body *Block
+					switch {
+					case c.Payload.K == KUnion:
+						body = ExprBlock(cat(&StrLit{c.Name + "("}, call(name, v("p")), &StrLit{")"}))
+					case c.Payload.K == KSlice:
+						body = ExprBlock(cat(&StrLit{c.Name + "["}, call("strings.Concat", &StrLit{";"}, call("slice.Map", v(name), v("p"))), &StrLit{"]"}))
+					default: // pair
+						var parts []Expr
+						for k, a := range c.Payload.Args {
+							if a.K == KUnion {
+								parts = append(parts, call(name, v(fmt.Sprintf("q%d", k))))
+							} else {
+								need(a)
+								parts = append(parts, call(g.shows[a.String()], v(fmt.Sprintf("q%d", k))))
+							}
+						}
+						body = &Block{Stmts: []Stmt{&LetDestr{[]string{"q0", "q1"}, v("p")}}, Result: cat(&StrLit{c.Name + "("}, parts[0], &StrLit{","}, parts[1], &StrLit{")"})}
+					}
+					m.Arms = append(m.Arms, UArm{Case: i, Bind: "p", Body: body})
+				} else if c.Payload != nil {
 					need(c.Payload)
 					m.Arms = append(m.Arms, UArm{Case: i, Bind: "p", Body: ExprBlock(cat(&StrLit{c.Name + "("}, call(g.shows[c.Payload.String()], v("p")), &StrLit{")"}))})
 				} else {
@@ -1334,6 +1388,18 @@ func (g *Gen) lit(t *Type, sc *scope, d int, fx bool) Expr {
 	case KUnion:
 		ud := g.union(t.Name)
 		ci := g.R.Intn(len(ud.Cases))
+		if d <= 1 {
+			// a value of a self-referential union must end: only cases that do not mention the union
+			var flat []int
+			for i, c := range ud.Cases {
+				if c.Payload == nil || !mentionsUnion(c.Payload, ud.Name) {
+					flat = append(flat, i)
+				}
+			}
+			if len(flat) < len(ud.Cases) {
+				ci = core.Pick(g.R, flat)
+			}
+		}
 		c := &Ctor{Union: ud, Case: ci}
 		if ud.Cases[ci].Payload != nil {
 			c.Arg = g.expr(ud.Cases[ci].Payload, sc, d-1, fx)
